@@ -306,12 +306,35 @@ theorem mem_satisfy_atoms {pr : Pre} {a : Atom} {e : Atom × Bool} (h : e ∈ (p
     · rfl
     · exact hs
 
+/-- `foldl_inv` with the membership of the element at hand -/
+theorem foldl_inv_mem {α σ} (P : σ → Prop) (f : σ → α → σ) :
+    ∀ (l : List α) (s : σ), (∀ s a, a ∈ l → P s → P (f s a)) → P s → P (l.foldl f s) := by
+  intro l; induction l with
+  | nil => intro s _ hs; exact hs
+  | cons a l ih =>
+    intro s h hs
+    exact ih _ (fun s' a' ha' => h s' a' (List.mem_cons_of_mem _ ha')) (h s a (List.mem_cons_self ..) hs)
+
+theorem childrenOf_congr (g : Graph) (x y : Proxy) (out : String) (hp : x.pt = y.pt) (hn : x.name = y.name) :
+    childrenOf g x out = childrenOf g y out := by
+  unfold childrenOf
+  rw [hp, hn]
+
+theorem nextParentless_congr (g : Graph) (x y : Proxy) (hp : x.pt = y.pt) (hn : x.name = y.name) :
+    nextParentless g x = nextParentless g y := by
+  unfold nextParentless
+  rw [hp, hn]
+
 /-! ### The frame -/
 
 def Holds (Q : State → Proxy → Prop) (J : State → Prop) (s : State) : Prop :=
   (∀ x ∈ s.pool, Q s x) ∧ J s
 
-structure Frame (g : Graph) (Q : State → Proxy → Prop) (J : State → Prop) : Prop where
+/-- `A` says which instances may be asked of `spawnTask` (it guards `spawn`); the model only ever asks
+for a graph child of an output of a pooled instance (`child`), the next parentless instance of a pooled
+instance (`nextp`), or — at start-up — the first parentless instance of a task / a start task.
+Invariants that do not care take `A := fun _ => True`. -/
+structure Frame (g : Graph) (A : Int × String → Prop) (Q : State → Proxy → Prop) (J : State → Prop) : Prop where
   /-- `Q` reads the state through the pool keys, the history and `absDone` only -/
   qcongr : ∀ (s s' : State) (x : Proxy), keys s' = keys s → s'.hist = s.hist → s'.absDone = s.absDone →
     Q s x → Q s' x
@@ -323,7 +346,11 @@ structure Frame (g : Graph) (Q : State → Proxy → Prop) (J : State → Prop) 
   /-- satisfying an atom keeps `Q` -/
   sat : ∀ (s : State) (x : Proxy) (a : Atom), Q s x → Q s (x.satisfyMe a)
   /-- whatever `spawnTask` returns has `Q` -/
-  spawn : ∀ (s : State) (n : String) (p : Int) (z : Proxy), Holds Q J s → spawnTask g s n p = some z → Q s z
+  spawn : ∀ (s : State) (n : String) (p : Int) (z : Proxy), Holds Q J s → A (p, n) → spawnTask g s n p = some z → Q s z
+  /-- graph children of (any output of) an instance with `Q` may be spawned -/
+  child : ∀ (s : State) (x : Proxy) (out : String) (c : Child), Q s x → c ∈ childrenOf g x out → A (c.pt, c.name)
+  /-- the next parentless instance of an instance with `Q` may be spawned -/
+  nextp : ∀ (s : State) (x : Proxy) (np : Int), Q s x → nextParentless g x = some np → A (np, x.name)
   /-- adding a spawnable instance that is not in the pool -/
   add : ∀ (s : State) (z : Proxy), Holds Q J s → Q s z → (spawnTask g s z.name z.pt).isSome = true →
     s.get? z.pt z.name = none → Holds Q J { s with pool := s.pool ++ [z] }
@@ -343,7 +370,7 @@ def AbsClosed (Q : State → Proxy → Prop) (J : State → Prop) : Prop :=
   ∀ (s : State) (a : Atom), Holds Q J s → Holds Q J { s with absDone := s.absDone ++ [a] }
 
 section Low
-variable {g : Graph} {Q : State → Proxy → Prop} {J : State → Prop} (F : Frame g Q J)
+variable {g : Graph} {A : Int × String → Prop} {Q : State → Proxy → Prop} {J : State → Prop} (F : Frame g A Q J)
 include F
 
 /-- a state with the same pool, history, `absDone` and `launched` -/
@@ -397,7 +424,7 @@ theorem Frame.holds_add {s : State} {z : Proxy} (h : Holds Q J s) (hz : Q s z)
       | some v => simp [hg] at hn
     exact F.add s z h hz hsp hn'
 
-theorem Frame.holds_spawnAndAdd (s : State) (n : String) (p : Int) (h : Holds Q J s) :
+theorem Frame.holds_spawnAndAdd (s : State) (n : String) (p : Int) (h : Holds Q J s) (hA : A (p, n)) :
     Holds Q J (spawnAndAdd g s n p) := by
   unfold spawnAndAdd
   split
@@ -405,17 +432,19 @@ theorem Frame.holds_spawnAndAdd (s : State) (n : String) (p : Int) (h : Holds Q 
   · split
     · rename_i x hx
       have hk := spawnTask_key hx
-      apply F.holds_add h (F.spawn s n p x h hx)
+      apply F.holds_add h (F.spawn s n p x h hA hx)
       rw [hk.1, hk.2, hx]; rfl
     · exact h
 
-theorem Frame.holds_spawnNextParentless (s : State) (x : Proxy) (h : Holds Q J s) :
+theorem Frame.holds_spawnNextParentless (s : State) (x : Proxy) (h : Holds Q J s)
+    (hx : ∀ np, nextParentless g x = some np → A (np, x.name)) :
     Holds Q J (spawnNextParentless g s x) := by
   unfold spawnNextParentless
   split
   · exact h
   · split
-    · exact F.holds_spawnAndAdd _ _ _ h
+    · rename_i np hnp
+      exact F.holds_spawnAndAdd _ _ _ h (hx np hnp)
     · exact h
 
 omit F in
@@ -463,9 +492,10 @@ theorem Frame.holds_releaseRunahead (s : State) (h : Holds Q J s) : Holds Q J (r
   · split
     · exact h
     · simp only
-      apply foldl_inv (Holds Q J) _ _ _ _ h
-      intro st x hst
-      apply F.holds_spawnNextParentless
+      apply foldl_inv_mem (Holds Q J) _ _ _ _ h
+      intro st x hxm hst
+      have hxs : x ∈ s.pool := (List.mem_filter.mp hxm).1
+      apply F.holds_spawnNextParentless _ _ _ (fun np hnp => F.nextp s x np (h.1 x hxs) hnp)
       split
       · rename_i y hy
         exact F.holds_put hst (F.upd st y _ (hst.1 y (get?_mem hy).1) (same_reset _ _ _ _))
@@ -488,7 +518,8 @@ theorem Frame.holds_queueIfReady (s : State) (x : Proxy) (h : Holds Q J s) (hx :
   · exact F.holds_put h (F.upd s x _ hx (same_reset _ _ _ _))
   · exact h
 
-theorem Frame.holds_loadFromPoint (h0 : Holds Q J ({} : State)) : Holds Q J (loadFromPoint g) := by
+theorem Frame.holds_loadFromPoint (h0 : Holds Q J ({} : State))
+    (hload : ∀ t ∈ g.tasks, ∀ p, t.firstParentless = some p → A (p, t.name)) : Holds Q J (loadFromPoint g) := by
   unfold loadFromPoint
   simp only
   apply foldl_inv (Holds Q J)
@@ -499,10 +530,11 @@ theorem Frame.holds_loadFromPoint (h0 : Holds Q J ({} : State)) : Holds Q J (loa
     · exact hst
   · apply F.holds_releaseRunaheadN
     apply F.holds_computeRunahead
-    apply foldl_inv (Holds Q J)
-    · intro st t hst
+    apply foldl_inv_mem (Holds Q J)
+    · intro st t ht hst
       split
-      · exact F.holds_spawnAndAdd _ _ _ hst
+      · rename_i p hp
+        exact F.holds_spawnAndAdd _ _ _ hst (hload t ht p hp)
       · exact hst
     · exact h0
 
@@ -545,7 +577,8 @@ theorem Frame.holds_remove (s : State) (x : Proxy) (h : Holds Q J s) (hx : x ∈
   unfold CylcModel.Sched.remove
   simp only
   split
-  · exact F.remove _ x _ (F.holds_spawnNextParentless s x h) (mem_spawnNextParentless hx)
+  · exact F.remove _ x _ (F.holds_spawnNextParentless s x h (fun np hnp => F.nextp s x np (h.1 x hx) hnp))
+      (mem_spawnNextParentless hx)
   · exact F.remove _ x _ h hx
 
 theorem Frame.holds_removeIfComplete (s : State) (x : Proxy) (h : Holds Q J s) (hx : x ∈ s.pool) :
@@ -598,7 +631,7 @@ theorem Frame.holds_suicides :
 
 /-- one child of `spawn_on_output`, once the (possible) recording of the absolute output is done -/
 theorem Frame.holds_spawnChild_core (p : Int) (n out : String) (st0 : State) (sui : List (Int × String))
-    (c : Child) (h0 : Holds Q J st0) :
+    (c : Child) (hc : A (c.pt, c.name)) (h0 : Holds Q J st0) :
     Holds Q J (spawnChildCore g p n out st0 sui c).1 := by
   unfold spawnChildCore
   split
@@ -617,12 +650,12 @@ theorem Frame.holds_spawnChild_core (p : Int) (n out : String) (st0 : State) (su
       rw [hg] at hy
       simp only at hy
       have hk := spawnTask_key hy
-      apply F.holds_add h0 (F.sat _ _ _ (F.spawn _ _ _ _ h0 hy))
+      apply F.holds_add h0 (F.sat _ _ _ (F.spawn _ _ _ _ h0 hc hy))
       show (spawnTask g st0 y.name y.pt).isSome = true
       rw [hk.1, hk.2, hy]; rfl
 
 theorem Frame.holds_spawnChild (hA : AbsClosed Q J) (p : Int) (n out : String)
-    (acc : State × List (Int × String)) (c : Child) (h : Holds Q J acc.1) :
+    (acc : State × List (Int × String)) (c : Child) (hc : A (c.pt, c.name)) (h : Holds Q J acc.1) :
     Holds Q J (spawnChild g p n out acc c).1 := by
   obtain ⟨st, sui⟩ := acc
   rw [spawnChild_eq]
@@ -631,7 +664,7 @@ theorem Frame.holds_spawnChild (hA : AbsClosed Q J) (p : Int) (n out : String)
     split
     · exact hA _ _ h
     · exact h
-  exact F.holds_spawnChild_core p n out _ sui c h0
+  exact F.holds_spawnChild_core p n out _ sui c hc h0
 
 /-- `spawn_on_output`, given that the fold over the children keeps the invariant -/
 theorem Frame.holds_spawnOnOutput_of_children (s : State) (p : Int) (n out : String) (h : Holds Q J s)
@@ -654,13 +687,21 @@ theorem Frame.holds_spawnOnOutput_of_children (s : State) (p : Int) (n out : Str
 theorem Frame.holds_spawnOnOutput (hA : AbsClosed Q J) (s : State) (p : Int) (n out : String)
     (h : Holds Q J s) : Holds Q J (spawnOnOutput g s p n out) := by
   apply F.holds_spawnOnOutput_of_children s p n out h
-  intro x _
-  have h1 : ∀ (cs : List Child) (acc : State × List (Int × String)), Holds Q J acc.1 →
-      Holds Q J (cs.foldl (spawnChild g p n out) acc).1 := by
+  intro x hx
+  have hqx : Q s x := h.1 x (get?_mem hx).1
+  have h1 : ∀ (cs : List Child) (acc : State × List (Int × String)), (∀ c ∈ cs, A (c.pt, c.name)) →
+      Holds Q J acc.1 → Holds Q J (cs.foldl (spawnChild g p n out) acc).1 := by
     intro cs; induction cs with
-    | nil => intro acc ha; exact ha
-    | cons c cs ih => intro acc ha; exact ih _ (F.holds_spawnChild hA p n out acc c ha)
-  exact h1 _ _ h
+    | nil => intro acc _ ha; exact ha
+    | cons c cs ih =>
+      intro acc hcs ha
+      exact ih _ (fun c' hc' => hcs c' (List.mem_cons_of_mem _ hc'))
+        (F.holds_spawnChild hA p n out acc c (hcs c (List.mem_cons_self ..)) ha)
+  apply h1 _ _ _ h
+  intro c hc
+  split at hc
+  · simp at hc
+  · exact F.child s x out c hqx hc
 
 end Low
 
@@ -676,7 +717,7 @@ theorem lookup_pool {s : State} {p : Int} {n : String} {x : Proxy} (h : lookup s
   · simp at h
 
 section High
-variable {g : Graph} {Q : State → Proxy → Prop} {J : State → Prop} (F : Frame g Q J)
+variable {g : Graph} {A : Int × String → Prop} {Q : State → Proxy → Prop} {J : State → Prop} (F : Frame g A Q J)
 variable (hSOO : ∀ (s : State) (p : Int) (n out : String), Holds Q J s → Holds Q J (spawnOnOutput g s p n out))
 include F
 
@@ -848,8 +889,10 @@ theorem Frame.holds_step (s : State) (op : Op) (h : Holds Q J s) : Holds Q J (st
 
 include hSOO in
 /-- the invariant holds in every state of every run -/
-theorem Frame.holds_run (h0 : Holds Q J ({} : State)) (ops : List Op) : ∀ s ∈ run g ops, Holds Q J s :=
-  run_inv (Holds Q J) g (F.holds_loadFromPoint h0) (F.holds_step hSOO) ops
+theorem Frame.holds_run (h0 : Holds Q J ({} : State))
+    (hload : ∀ t ∈ g.tasks, ∀ p, t.firstParentless = some p → A (p, t.name)) (ops : List Op) :
+    ∀ s ∈ run g ops, Holds Q J s :=
+  run_inv (Holds Q J) g (F.holds_loadFromPoint h0 hload) (F.holds_step hSOO) ops
 
 end High
 
